@@ -10,6 +10,7 @@ import (
 	"fmt"
 	"math"
 	"runtime"
+	"strings"
 	"sync"
 	"sync/atomic"
 
@@ -30,6 +31,20 @@ type violationSink struct {
 	first string
 	edges int
 	calls int64
+	ops   []*monitorOp
+}
+
+// finalCheck asks every operator whose series list was requested during the run for it once more:
+// the list must still be what it was (an operator above may not edit the label sets it was handed).
+func (v *violationSink) finalCheck(ctx context.Context) {
+	for _, m := range v.ops {
+		m.mu.Lock()
+		got := m.gotSer
+		m.mu.Unlock()
+		if got {
+			m.Series(ctx)
+		}
+	}
 }
 
 func (v *violationSink) report(format string, a ...interface{}) {
@@ -49,6 +64,7 @@ type monitorOp struct {
 	end    int64
 	batch  int
 	yield  uint64
+	single bool // below a step-invariant operator: evaluated for the window's first step only
 
 	mu      sync.Mutex
 	series  []string
@@ -108,6 +124,18 @@ func (m *monitorOp) Next(ctx context.Context) ([]model.StepVector, error) {
 	m.mu.Lock()
 	defer m.mu.Unlock()
 	if b == nil {
+		if !m.ended {
+			// the end of the stream: every step of the window must have been served
+			last := m.start
+			if !m.single && m.step > 0 {
+				last = m.start + (m.end-m.start)/m.step*m.step
+			}
+			if !m.hasLast {
+				m.sink.report("%s: signalled the end of its stream without serving any step of the window [%d, %d]", m.name, m.start, m.end)
+			} else if m.lastT != last {
+				m.sink.report("%s: signalled the end of its stream after t=%d, the window's last step is %d", m.name, m.lastT, last)
+			}
+		}
 		m.ended = true
 		return b, nil
 	}
@@ -170,13 +198,20 @@ func childrenOf(op model.VectorOperator) []*model.VectorOperator {
 
 // instrument wraps every edge below (and including) the slot.
 func instrument(slot *model.VectorOperator, sink *violationSink, w Window, yieldSeed uint64, path string) {
+	instrumentIn(slot, sink, w, yieldSeed, path, false)
+}
+
+func instrumentIn(slot *model.VectorOperator, sink *violationSink, w Window, yieldSeed uint64, path string, single bool) {
 	inner := *slot
 	name, _ := inner.Explain()
+	below := single || strings.Contains(name, "stepInvariantOperator")
 	for i, c := range childrenOf(inner) {
-		instrument(c, sink, w, yieldSeed*31+uint64(i)+1, fmt.Sprintf("%s/%d", path, i))
+		instrumentIn(c, sink, w, yieldSeed*31+uint64(i)+1, fmt.Sprintf("%s/%d", path, i), below)
 	}
 	sink.edges++
-	*slot = &monitorOp{inner: inner, name: path + ":" + name, sink: sink, step: w.Step, start: w.Start, end: w.End, batch: 10, yield: yieldSeed}
+	m := &monitorOp{inner: inner, name: path + ":" + name, sink: sink, step: w.Step, start: w.Start, end: w.End, batch: 10, yield: yieldSeed, single: single}
+	sink.ops = append(sink.ops, m)
+	*slot = m
 }
 
 // oracleStream (C18): monitors every operator edge of the plan while the query
@@ -203,6 +238,9 @@ func oracleStream(c *Case) CaseResult {
 	sink := &violationSink{}
 	instrument(root, sink, c.Window, uint64(c.Seed)*7919+uint64(c.ID)+1, "root")
 	out := canonResult(q.Exec(context.Background()))
+	if out.Kind != "error" {
+		sink.finalCheck(context.Background())
+	}
 	q.Close()
 	res.NonTriv = out.NonTrivial()
 	res.Tags = []string{fmt.Sprintf("edges=%d calls=%d", sink.edges, sink.calls)}
